@@ -1,5 +1,6 @@
 import PycModel.Spec.Stmt
 import PycModel.Properties.Tables
+import PycModel.Proofs.SwitchRefine
 /-!
 # C05 — statement ASTs mirror C's statement nesting and source order
 
@@ -37,5 +38,68 @@ theorem regroupGo_prefix (pre rest done : List Val) (h : ∀ v ∈ pre, isLabelV
     simp only [List.cons_append, regroupGo, peel_nonlabel _ v hv]
     rw [ih _ (fun w hw => h w (by simp [hw]))]
     simp
+
+
+/-! ## `fix_switch_cases` (model of `ast_transforms.py`) = the specification's regrouping -/
+
+open SwitchRefine in
+/-- **Refinement.** On every switch block whose labelled items have the shape the parser builds
+(`ParserShaped`: each `case`/`default` node owns exactly one statement), the model of the main
+loop of `fix_switch_cases` returns exactly the regrouping written from the property's wording -
+without error, from any parser state, for blocks of any length and label chains of any depth. -/
+theorem fixSwitchLoop_eq_regroup (items : List Val) (hwf : ParserShaped items) (s : PState) :
+    fixSwitchLoop items [] false s = .ok (regroup items) s :=
+  (loop_refines items hwf s []).1
+
+open SwitchRefine in
+/-- the whole transform on a `Switch` node with a block body = `switchBodyV` of the specification -/
+theorem fixSwitchCases_eq_spec (co bco : Option Coord) (cond : Val) (items : List Val)
+    (hwf : ParserShaped items) (s : PState) :
+    fixSwitchCases (.node .Switch co [cond, .node .Compound bco [.list items]]) s
+      = .ok (.node .Switch co [cond, switchBodyV (.node .Compound bco [.list items])]) s := by
+  have h := fixSwitchLoop_eq_regroup items hwf s
+  simp [fixSwitchCases, bind_apply, pure_apply, attrOrCrash, valCoord, Val.coord?, h, switchBodyV, mk]
+
+open SwitchRefine in
+/-- an empty block (`block_items` is `None`) becomes an empty list, as in the specification -/
+theorem fixSwitchCases_empty_block (co bco : Option Coord) (cond : Val) (s : PState) :
+    fixSwitchCases (.node .Switch co [cond, .node .Compound bco [.none]]) s
+      = .ok (.node .Switch co [cond, switchBodyV (.node .Compound bco [.none])]) s := by
+  simp [fixSwitchCases, bind_apply, pure_apply, attrOrCrash, valCoord, Val.coord?, switchBodyV, mk, fixSwitchLoop]
+
+open SwitchRefine in
+/-- what `_parse_labeled_statement` builds (`mk .Case co [expr, .list [stmt]]`,
+`mk .Default co [.list [stmt]]`) is a label chain whenever its sub-statement is one or is no label -/
+theorem labeled_statement_shape (co : Option Coord) (e stmt : Val)
+    (h : isLabelV stmt = true → ∃ n, LabelChain n stmt) :
+    (∃ n, LabelChain n (mk .Case co [e, .list [stmt]])) ∧
+    (∃ n, LabelChain n (mk .Default co [.list [stmt]])) := by
+  cases hs : isLabelV stmt with
+  | false => exact ⟨⟨1, .caseLeaf co e stmt hs⟩, ⟨1, .defLeaf co stmt hs⟩⟩
+  | true =>
+    obtain ⟨n, hc⟩ := h hs
+    exact ⟨⟨n + 1, .caseStep co e stmt n hc⟩, ⟨n + 1, .defStep co stmt n hc⟩⟩
+
+open SwitchRefine in
+/-- non-vacuity: `x; case 1: case 2: a; b; default: c;` is parser-shaped and regroups to
+`x; case 1: ; case 2: a b; default: c` -/
+example :
+    let a := Val.node .ID none [.str "a"]; let b := Val.node .ID none [.str "b"]
+    let c := Val.node .ID none [.str "c"]; let x := Val.node .ID none [.str "x"]
+    let one := Val.node .Constant none [.str "int", .str "1"]
+    let two := Val.node .Constant none [.str "int", .str "2"]
+    let items := [x, .node .Case none [one, .list [.node .Case none [two, .list [a]]]], b,
+                  .node .Default none [.list [c]]]
+    ParserShaped items ∧
+    regroup items = [x, .node .Case none [one, .list []], .node .Case none [two, .list [a, b]],
+                     .node .Default none [.list [c]]] := by
+  refine ⟨?_, by rfl⟩
+  intro v hv hl
+  simp only [List.mem_cons, List.mem_nil_iff, or_false] at hv
+  rcases hv with rfl | rfl | rfl | rfl
+  · cases hl
+  · exact ⟨2, .caseStep _ _ _ _ (.caseLeaf _ _ _ rfl)⟩
+  · cases hl
+  · exact ⟨1, .defLeaf _ _ rfl⟩
 
 end PycModel.C05
